@@ -79,6 +79,8 @@ pub struct World {
     pub rid: RepoId,
     /// Root commit of the identity COB (= id of the identity object, = `resource` of other COBs).
     pub identity: Oid,
+    /// Commits h0 <- h1 on every delegate's default branch (targets of `Mode::Merge`).
+    pub heads: [Oid; 2],
     pub root_doc: Doc,
     pub actors: Vec<Device<MockSigner>>,
     /// Namespace keys sorted by their reference-name order (the enumeration order of
@@ -144,6 +146,20 @@ impl World {
         let root_doc = RawDoc::new(project, delegates, 1, Visibility::Public).verified().expect("doc");
         let (repo, identity) = Repository::init(&root_doc, &storage, &actors[A]).expect("repository init");
         let rid = repo.id;
+        // Two commits h0 <- h1; every delegate's default branch is at h1, so that a delegate's
+        // patch merge at h0 or at h1 is accepted (`Mode::Merge`).
+        let heads = {
+            use radicle::git::raw;
+            let sig = raw::Signature::new("harness", "harness@localhost", &raw::Time::new(T0, 0)).expect("signature");
+            let tree = repo.backend.find_tree(repo.backend.treebuilder(None).and_then(|b| b.write()).expect("empty tree")).expect("tree");
+            let h0 = repo.backend.commit(None, &sig, &sig, "h0", &tree, &[]).expect("commit h0");
+            let h1 = repo.backend.commit(None, &sig, &sig, "h1", &tree, &[&repo.backend.find_commit(h0).expect("h0")]).expect("commit h1");
+            for d in [A, B, C] {
+                let name = format!("refs/namespaces/{}/refs/heads/master", actors[d].public_key());
+                repo.backend.reference(&name, h1, true, "harness").expect("default branch");
+            }
+            [Oid::from(h0), Oid::from(h1)]
+        };
         // Namespace keys: deterministic, `seed` permutes which keys are used (their order is a
         // dimension that the checks enumerate explicitly).
         let mut namespaces: Vec<PublicKey> = (0..n_namespaces)
@@ -161,6 +177,7 @@ impl World {
             repo,
             rid,
             identity,
+            heads,
             root_doc,
             actors,
             namespaces,
@@ -553,6 +570,11 @@ pub enum Mode {
     /// the type rejects for `reason`. `actor`: 0 a delegate, 1 the non-delegate N (the object's
     /// author when the plan's root author is N), 2 the stranger S.
     Rich { prefix: u8, reason: u8, actor: u8 },
+    /// Patches only (other types: same as `Valid`): change `i` is a merge of the root revision by
+    /// the delegate `[A, B, C][(i - 1) % 3]` at commit `World::heads[(i - 1) % 2]`, both of which
+    /// are on every delegate's default branch. With threshold 1 two such changes leave the patch
+    /// with two sufficiently supported merges (`State::Open { conflicts }`).
+    Merge,
 }
 
 /// Kinds of accepted actions a rich prefix is drawn from.
@@ -730,6 +752,7 @@ impl Mode {
         match self {
             Mode::Valid => "valid".into(),
             Mode::BadSig => "bad-commit-signature".into(),
+            Mode::Merge => "delegate-merge".into(),
             Mode::Rejected { pos, reason } => format!("{}@action{}", reasons(kind)[*reason as usize].name, pos + 1),
             Mode::Rich { prefix, reason, actor } => format!(
                 "{}@after[{}]/by-{}",
@@ -777,7 +800,7 @@ impl Mode {
     }
     pub fn certain_invalid(&self, kind: Kind) -> bool {
         match self {
-            Mode::Valid => false,
+            Mode::Valid | Mode::Merge => false,
             Mode::BadSig => true,
             Mode::Rejected { reason, .. } | Mode::Rich { reason, .. } => reasons(kind)[*reason as usize].certain,
         }
@@ -979,6 +1002,10 @@ fn render(w: &World, plan: &Plan, i: usize, ids: &[Oid]) -> Rendered {
             use patch::Action as Ac;
             let mut author = [A, B, N][i % 3];
             let rev = patch::RevisionId::from(root);
+            if mode == Mode::Merge {
+                let merge = Ac::Merge { revision: rev, commit: w.heads[(i - 1) % 2] };
+                return Rendered { author: [A, B, C][(i - 1) % 3], contents: vec![enc(&merge)], embeds: vec![] };
+            }
             let mut ok: Vec<Ac> = vec![
                 Ac::Edit { title: format!("title {i}"), target: patch::MergeTarget::Delegates },
                 Ac::Lifecycle { state: [patch::Lifecycle::Draft, patch::Lifecycle::Open, patch::Lifecycle::Archived][i % 3].clone() },
